@@ -38,9 +38,13 @@ func c12Oracle(sp *Spec, x *X, res *mcrt.Result) (string, string) {
 		type colKey struct{ side, col int }
 		type cell struct{ bar, need, got int }
 		cols := map[colKey][]cell{}
+		used := map[int]int{} // display columns the decorators of each bar returned in this frame
 		for ei < len(x.Decors) && x.Decors[ei].Step <= f.Step {
 			e := x.Decors[ei]
 			ei++
+			if e.Got > 0 {
+				used[e.Bar] += e.Got
+			}
 			if e.Got < 0 {
 				return "format-width", fmt.Sprintf("frame %d: decorator d%d.%d.%d returned width %d but the returned string is %d columns wide", fi, e.Bar, e.Side, e.Ord, e.Need, -e.Got)
 			}
@@ -73,6 +77,14 @@ func c12Oracle(sp *Spec, x *X, res *mcrt.Result) (string, string) {
 				}
 				if c.got != max {
 					return "column-width", fmt.Sprintf("frame %d side %d column %d: bar %d rendered with width %d, the column needs %d (cells %v)", fi, k.side, k.col, c.bar, c.got, max, cells)
+				}
+			}
+		}
+		// a decorator is cut (ellipsis) only when the decorators of its row really exceed the container width
+		if sp.Width > 0 && !f.Err {
+			for _, r := range f.Rows {
+				if r.Ext == -1 && r.Bar >= 0 && used[r.Bar] > 0 && used[r.Bar] <= sp.Width && strings.Contains(r.Raw, "…") {
+					return "decorator-truncated", fmt.Sprintf("frame %d: the decorators of bar %d take %d of %d columns, yet one is cut: %q", fi, r.Bar, used[r.Bar], sp.Width, r.Raw)
 				}
 			}
 		}
@@ -176,6 +188,41 @@ func c12Programs(tier string) []*Spec {
 			out = append(out, sp)
 		}
 	}
+	// a colouring OnCompleteMeta wrapper in front of a synchronised decorator, in a container just wide enough
+	for _, rf := range []string{"manual", "auto"} {
+		sp := &Spec{Name: "c12-colour-tight", Refresh: rf, Q: -1, Width: 11}
+		sp.Bars = []BarSpec{
+			{Total: 1, Pre: []DecorSpec{{Wrap: "ccolor", Widths: []int{4}}, syncD(3)}},
+			{Total: 2, Pre: []DecorSpec{{Widths: []int{4}}, syncD(5)}},
+		}
+		sp.Main = []Op{{K: "add", B: 0}, {K: "add", B: 1}}
+		ops := []Op{{K: "incr", B: 0, N: 1}}
+		if rf == "manual" {
+			ops = append(ops, Op{K: "refresh"}, Op{K: "refresh"}, Op{K: "refresh"})
+		} else {
+			ops = append(ops, Op{K: "barwait", B: 0}, Op{K: "sleep", N: 250})
+		}
+		ops = append(ops, Op{K: "incr", B: 1, N: 2})
+		if rf == "manual" {
+			ops = append(ops, Op{K: "refresh"}, Op{K: "refresh"})
+		}
+		sp.Clients = [][]Op{ops}
+		out = append(out, sp)
+	}
+	// user code that keeps one initialised WC value and builds every decorator of a column from it
+	for _, rf := range []string{"manual", "auto"} {
+		sp := &Spec{Name: "c12-shared-wc", Refresh: rf, Q: -1}
+		for i := 0; i < 3; i++ {
+			sp.Bars = append(sp.Bars, BarSpec{Total: 2, Pre: []DecorSpec{{Sync: true, SharedWC: 1, Widths: []int{i + 2, 4 - i}}}, App: []DecorSpec{{Sync: true, SharedWC: 1, Widths: []int{3 - i, 2}}}})
+			sp.Main = append(sp.Main, Op{K: "add", B: i})
+			ops := completeOps(i, 2)
+			if rf == "manual" {
+				ops = append(ops, Op{K: "refresh"}, Op{K: "refresh"})
+			}
+			sp.Clients = append(sp.Clients, ops)
+		}
+		out = append(out, sp)
+	}
 	return out
 }
 
@@ -183,7 +230,7 @@ func init() {
 	register(&Family{
 		Property: "C12",
 		Rule: "layouts: 2..3 bars, a synchronised decorator on each side (plus a plain one), wrapped in {none, OnComplete, OnAbort, both, Meta, OnCompleteMeta}, minimum width 0/4, extra-space flag on/off, text widths changing from frame to frame; membership events {steady, a bar joins, leaves by remove-on-complete, by abort+drop, pop mode}; unequal column heights (thorough); manual (exact frames) and auto refresh; every schedule within the deviation bound. " +
-			"Oracle: a recording decorator stores per frame the width it needs (text, minimum width, extra space) and the width Format returned; in every frame every synchronised column has one width equal to the maximum needed among the bars shown; plain decorators get exactly what they need; decorators never run for a bar that is not in the frame.",
+			"Oracle: a recording decorator stores per frame the width it needs (text, minimum width, extra space) and the width Format returned; in every frame every synchronised column has one width equal to the maximum needed among the bars shown; plain decorators get exactly what they need; decorators never run for a bar that is not in the frame; a decorator is cut with an ellipsis only when the decorators of its row exceed the container width (colouring OnCompleteMeta wrapper in a container just wide enough); decorators built from one reused, already initialised WC value still synchronise.",
 		Items: func(tier string) []Item {
 			var items []Item
 			bound := 1
